@@ -52,8 +52,11 @@ class WGen(Gen):
 
 
 def rel_scalars(scn, cname, path=()):
+    """scalars a constraint of class `cname` can name by attribute path; the `size` of a list that is itself reached through a
+    list element is not among them (the facade rejects it: 'Composite ... does not contain a field "size"')"""
     import worldlib as W
-    return W.scalar_paths(scn, cname, path)
+    return [x for x in W.scalar_paths(scn, cname, path)
+            if not (x[0][-1] == "size" and any(c.endswith("]") for c in x[0][:-1]))]
 
 
 def gen_world(rng, profile):
@@ -128,6 +131,37 @@ def gen_world(rng, profile):
                 body.append({"k": "expr", "e": B(r.choice(["lt", "le", "ne", "ge", "eq"]), lhs, rhs)})
             host["blocks"].append({"name": "zz1", "stmts": [{"k": "foreach_o", "list": ["ol0"], "n": ol["n"], "it": use_it,
                                                               "idx": use_idx, "body": body}]})
+    # a list of objects each of which holds a list of objects, constrained by a nested foreach: the inner list is reached
+    # through the outer iterator or index
+    if r.random() < profile.get("nested", 0.2):
+        leaf = r.choice(leafs)
+        classes["N"] = {"base": None, "fields": [g.decl("n0", 0)], "subs": [], "blocks": [], "pre": r.random() < 0.4,
+                        "post": r.random() < 0.4,
+                        "olists": [{"name": "il0", "cls": leaf, "n": r.randint(1, 2), "rand": r.random() < 0.85}]}
+        host = classes[root]
+        n1 = r.randint(1, 2)
+        host.setdefault("olists", []).append({"name": "nl0", "cls": "N", "n": n1, "rand": r.random() < 0.85})
+        ef = [f for f in W.members(scn, leaf) if f[1] == "scalar" and not f[2].get("enums")]
+        hs = [x for x in rel_scalars(scn, root) if len(x[0]) == 1 and not x[1].get("enums")]
+        if ef:
+            it1 = r.random() < 0.6
+            it2 = r.random() < 0.6
+            idx2 = (not it2) or r.random() < 0.5
+            body = []
+            for _ in range(r.randint(1, 2)):
+                f = r.choice(ef)
+                d = r.random()
+                if d < 0.5 or not hs:
+                    rhs = I(r.randint(0, 6))
+                elif d < 0.75 and idx2:
+                    rhs = B("add", {"k": "idx"}, I(r.randint(0, 2)))
+                else:
+                    rhs = {"k": "fld", "path": list(r.choice(hs)[0])}
+                body.append({"k": "expr", "e": B(r.choice(["lt", "le", "ne", "ge", "eq"]), {"k": "itfld", "name": f[0]}, rhs)})
+            host["blocks"].append({"name": "zz2", "stmts": [
+                {"k": "foreach_o", "list": ["nl0"], "n": n1, "it": it1, "idx": (not it1) or r.random() < 0.4,
+                 "body": [{"k": "foreach_o", "list": ["il0"], "rel": True, "n": classes["N"]["olists"][0]["n"], "it": it2, "idx": idx2,
+                           "body": body}]}]})
     # pre_randomize of some classes assigns a value to one of the class's non-random fields
     for cn, cd in classes.items():
         nr = [f for f in cd["fields"] if not f["rand"] and not f.get("enums")]
